@@ -31,6 +31,12 @@ FINDINGS = {
     "K8": {"props": ["C06"],
            "what": "bit-field members of a union ignore their width (union { uint8 a:4; uint8 b:4; } parses 0xa5 as "
                    "a = b = 0xa5)"},
+    "K10": {"props": ["C11"],
+            "what": "a second write through a held reference to a nested structure of a union is lost (p = u.a; p.x = 1; "
+                    "p.y = 2: the rebuild after the first write replaced u.a, the old proxy writes to the dead object)"},
+    "K11": {"props": ["C16"],
+            "what": "a pointer inside a fixed-size union keeps the union's private byte buffer as its stream: dereferencing "
+                    "reads relative to the union's start instead of the absolute stream offset"},
     "K9": {"props": ["C04"],
            "what": "aligned structure used at an unaligned offset of a packed structure: its tail padding is computed "
                    "from the absolute stream position, so bytes consumed / dumped differ from len() and array elements "
